@@ -18,10 +18,16 @@
    follows (word_fallback).  mandatory_break_ends_line_never is the earlier special case for BreakPolicy Never.
    The former counter-example to line_end_allowed on the truncated line (finding F8: the line ended at a boundary between
    two input runs) is repaired in the library (fix 5102a36, followed by the model).
-   NOT proved (oracle check_break_positions only): the global statement over RETURNED lines "every returned line end is a
-   permitted position" for non-truncated lines. *)
-From TV Require Import Model.Wrap Spec.Wrap Proofs.Wrap Proofs.WrapLines Proofs.WrapMand Proofs.WrapMand2 Proofs.WrapGreedy
-  Proofs.WrapValid.
+   when_necessary_split_only_if_needed (Proofs/WrapGreedyAll.v): with policy WhenNecessary a line returned with the wrapper
+   live (not the truncated line) that does not end at a UAX #14 opportunity starts inside or at the start of the word it
+   splits (no valid UAX #14 opportunity strictly inside the line) and that word cannot fit: the runes from the line start to
+   the next valid UAX #14 opportunity are too wide.
+   line_end_allowed (Proofs/WrapLineEnd.v): every line returned while the wrapper stays live ends at a UAX #14 opportunity or,
+   for a policy other than Never, at a grapheme cluster boundary (that it is a cluster boundary of every run is C02
+   wrapped_pieces_exact).  NOT proved (oracle check_break_positions only): the same for the line that reports done (the
+   text end, or the truncated line, which may end where the text that fits beside the truncator ends). *)
+From TV Require Import Model.Wrap Spec.Wrap Spec.WrapGreedy Spec.WrapGreedyAll Proofs.Wrap Proofs.WrapLines Proofs.WrapMand Proofs.WrapMand2
+  Proofs.WrapGreedy Proofs.WrapValid Proofs.WrapGreedyAll Proofs.WrapLineEnd.
 
 (* every UAX #14 candidate the breaker produces is the rune before a line boundary of the segmenter, candidates come
    in increasing order without skipping a boundary, and a candidate is required only at a mandatory boundary *)
@@ -229,4 +235,80 @@ Proof.
   cbv zeta. split; [vm_compute; reflexivity|]. split; [reflexivity|].
   split; [unfold valid_mandatory; vm_compute; repeat split; reflexivity|].
   eexists _, _. split; [vm_compute; reflexivity|]. vm_compute. reflexivity.
+Qed.
+
+(* ---- policy WhenNecessary: a word is split only when it cannot fit on a line by itself (Proofs/WrapGreedyAll.v) ------------- *)
+
+(* when_necessary_split_only_if_needed: Prepare with policy WhenNecessary on well-formed runs, ANY sequence of WrapNextLine
+   calls with any widths reaching a live state wk, one more call with maxWidth mw that leaves the wrapper live (done =
+   false: the line is not the truncated one and does not end the text), sign hypothesis nonneg_adv on the entry store.
+   If the returned line [s, e) = [lineStart, NextLine) does not end at a UAX #14 opportunity (the line was split inside a
+   word), then
+   * no valid UAX #14 opportunity lies strictly inside the line: the line holds nothing but a part of that word - the
+     word was not preceded on its line by text that could have been kept and the word moved down;
+   * the word cannot fit on a line by itself: there is q >= e with no valid UAX #14 opportunity strictly between e and q
+     such that the runes [s, q), placed as the exact pieces of the input runs, measure more than mw (Spec/WrapGreedyAll.v
+     next_too_wide, Spec/WrapGreedy.v extended_line_too_wide, line_measure on the call's entry store).
+   The exception of the property text "or to fill the final line before truncation" is the truncated line (done = true),
+   outside this statement. *)
+Theorem when_necessary_split_only_if_needed : forall n w cfg attrs runs widths wk rs mw w' wl,
+  wf_runs (w_st w) runs n = true -> zlen attrs - 1 = n -> 1 <= n ->
+  run_calls (prepare w cfg attrs runs 0 0) widths = Ok (wk, rs) -> w_more wk = true ->
+  nonneg_adv (w_st wk) = true -> c_policy (w_cfg wk) = 0 ->
+  wrap_next_line wk mw = Ok (w', wl, false) ->
+  line_boundary attrs (wl_next wl) = false ->
+  (forall p, w_start wk < p < wl_next wl -> valid_line_break attrs (w_st wk) runs p -> False)
+  /\ next_too_wide (word_candidate attrs (w_st wk) runs) (w_st wk) runs (c_dir (w_cfg wk)) (w_start wk) (wl_next wl) mw.
+Proof. exact wn_split_calls. Qed.
+Print Assumptions when_necessary_split_only_if_needed.
+
+(* non-vacuity: "abcdef" in one run (one UAX #14 segment), policy WhenNecessary, maxWidth 4: the word cannot fit, the
+   first call returns [0,4), live, and 4 is no UAX #14 opportunity *)
+Example when_necessary_example :
+  let st := [[mkGlyph 0 1 1 64 64 0 0 0; mkGlyph 1 1 1 64 64 0 0 0; mkGlyph 2 1 1 64 64 0 0 0; mkGlyph 3 1 1 64 64 0 0 0;
+              mkGlyph 4 1 1 64 64 0 0 0; mkGlyph 5 1 1 64 64 0 0 0]; []] in
+  let runs := [mkOut 384 0 0 6 0 0 6 0] in
+  let attrs := [4; 4; 4; 4; 4; 4; 7] in
+  let wk := prepare (w_zero st) (mkCfg 0 0 (mkOut 0 0 0 0 1 0 0 0) false 0 false) attrs runs 0 0 in
+  wf_runs st runs 6 = true /\ nonneg_adv st = true /\ c_policy (w_cfg wk) = 0 /\ w_more wk = true
+  /\ exists w' wl, wrap_next_line wk 4 = Ok (w', wl, false) /\ wl_next wl = 4 /\ line_boundary attrs 4 = false.
+Proof.
+  cbv zeta. split; [vm_compute; reflexivity|]. split; [vm_compute; reflexivity|]. split; [reflexivity|]. split; [reflexivity|].
+  vm_compute. eexists _, _. repeat split; reflexivity.
+Qed.
+
+(* ---- every live line ends at a permitted position (Proofs/WrapLineEnd.v) ------------------------------------------------- *)
+
+(* line_end_allowed: Prepare on well-formed runs with ANY policy, ANY sequence of WrapNextLine calls with any widths reaching a
+   live state wk, one more call that leaves the wrapper live (the line neither ends the text nor is the truncated one).
+   Its line ends at e = NextLine where the segmenter flags a UAX #14 line-break opportunity, or - only when the policy is
+   not Never - a UAX #29 grapheme cluster boundary.  No hypothesis on the store beyond well-formedness.  Two invariants:
+   a grapheme option pending re-issue was read from the segmenter's grapheme flags (BG, the counterpart of
+   required_flag_invariant's BW for the grapheme iterator, kept by every call), and the best line ends at a flagged
+   position through both loops of wrapNextLine (the UAX #14 loop records lines at UAX #14 options only; the grapheme loop
+   is entered under a policy other than Never only and records lines at grapheme options or at its UAX #14 option). *)
+Theorem line_end_allowed : forall n w cfg attrs runs widths wk rs mw w' wl,
+  wf_runs (w_st w) runs n = true -> zlen attrs - 1 = n -> 1 <= n ->
+  run_calls (prepare w cfg attrs runs 0 0) widths = Ok (wk, rs) -> w_more wk = true ->
+  wrap_next_line wk mw = Ok (w', wl, false) ->
+  line_boundary attrs (wl_next wl) = true \/ (c_policy (w_cfg wk) <> 1 /\ grapheme_boundary attrs (wl_next wl) = true).
+Proof. exact line_end_calls. Qed.
+Print Assumptions line_end_allowed.
+
+(* non-vacuity: "abcdef" (one UAX #14 segment) at maxWidth 4: under WhenNecessary the first line ends at 4, a grapheme
+   boundary that is no UAX #14 opportunity; under Never the whole word is returned (done) *)
+Example line_end_example :
+  let st := [[mkGlyph 0 1 1 64 64 0 0 0; mkGlyph 1 1 1 64 64 0 0 0; mkGlyph 2 1 1 64 64 0 0 0; mkGlyph 3 1 1 64 64 0 0 0;
+              mkGlyph 4 1 1 64 64 0 0 0; mkGlyph 5 1 1 64 64 0 0 0]; []] in
+  let runs := [mkOut 384 0 0 6 0 0 6 0] in
+  let attrs := [4; 4; 4; 4; 4; 4; 7] in
+  let wk := prepare (w_zero st) (mkCfg 0 0 (mkOut 0 0 0 0 1 0 0 0) false 0 false) attrs runs 0 0 in
+  wf_runs st runs 6 = true /\ w_more wk = true
+  /\ (exists w' wl, wrap_next_line wk 4 = Ok (w', wl, false) /\ wl_next wl = 4
+        /\ line_boundary attrs 4 = false /\ grapheme_boundary attrs 4 = true)
+  /\ (let wn := prepare (w_zero st) (mkCfg 0 0 (mkOut 0 0 0 0 1 0 0 0) false 1 false) attrs runs 0 0 in
+      exists w' wl, wrap_next_line wn 4 = Ok (w', wl, true) /\ wl_next wl = 6).
+Proof.
+  cbv zeta. split; [vm_compute; reflexivity|]. split; [reflexivity|].
+  split; vm_compute; eexists _, _; repeat split; reflexivity.
 Qed.
